@@ -868,6 +868,19 @@ def _process_graph_io_arguments(iofile, graph_type, file_format, multi_edges):
 def normalize_networkx_labels(G):
     """Relabel all vertices as integer starting from 1"""
     # Normalize GML file. All nodes are integers starting from 1
+    #
+    # Labels that all read as distinct integers (e.g. the strings '1',
+    # '2', ..., '10' found in a dot file) are sorted numerically,
+    # otherwise '10' would come before '2'.
+    try:
+        nodes = list(G.nodes())
+        keys = {v: int(v) for v in nodes}
+        if len(set(keys.values())) == len(nodes):
+            order = sorted(nodes, key=keys.get)
+            mapping = {v: i for i, v in enumerate(order, start=1)}
+            return networkx.relabel_nodes(G, mapping, copy=True)
+    except (TypeError, ValueError):
+        pass
     try:
         G = networkx.convert_node_labels_to_integers(
             G, first_label=1, ordering='sorted')
